@@ -7,6 +7,7 @@ from fractions import Fraction
 import arithcheck
 import core
 import gen
+import renderoracle
 from common import run_harness, run_model, qenc, Reader
 
 TOL = Fraction(1, 10 ** 9)
@@ -113,7 +114,7 @@ def nontrivial(case, impl):
 
 def check_cases(res, ctx, cases, label):
     exe = ctx["exe"]
-    hc = [{"files": [core.to_csv(c["rows"])], "init": gen.init_specs(c)} for c in cases]
+    hc = [{"files": [core.to_csv(c["rows"])], "init": gen.init_specs(c), "render": True} for c in cases]
     impl_raw = run_harness(exe, "core", hc)
     enc = [core.to_ints(c, 1) for c in cases]
     mod_raw = run_model([e[0] for e in enc])
@@ -135,6 +136,12 @@ def check_cases(res, ctx, cases, label):
         if d is not None:
             stats["correspondence_diffs"] += 1
             ctx["corr_diffs"].append((c, hc[k], d))
+        # the figures the REPORT shows are the ledger's figures (render model vs deltas)
+        rstat, probs = renderoracle.check_run({"impl": i, "raw": io, "st": e[1], "case": c}, groups=("figures",))
+        stats["report-" + rstat] += 1
+        if probs and not (rstat == "render-panic" and any(abs(x) >= BIG for dd in (i.get("secs") or {}).values() for d0 in dd["deltas"] for x in d0["post"] if x is not None)):
+            res.violation("failing-input", "the report does not show the ledger's figures: " + probs[0][1],
+                          {"input": hc[k], "problems": [m_ for _, m_ in probs[:5]]})
         if i["status"] == "ok":
             for s, so in i["secs"].items():
                 if so["stop"][0] == 0 and so["deltas"]:
